@@ -216,4 +216,4 @@ where
 
 #[cfg(feature = "breard_r_acmed_verif")]
 #[path = "/verif/probe/hooks_probe.rs"]
-mod verif;
+pub(crate) mod verif;
